@@ -292,6 +292,22 @@ def _chk_case(o, mode, key, case, acc, seed):
                 acc.violation(f'{key}:not-repeatable-after-result-edit', case,
                               f'after the caller edited the result of {o.name}({v[0]}) in place, the identical call on fresh arguments returns something else')
             return
+        if mode == 'listified':
+            # array_like: a (nested) list with the same numbers is the same input
+            pname = case['param']
+            base = o.variants()[0]
+            cold, _ = _cold(o, seed, base)
+            engine.reset_library_state()
+            np.random.seed(4242)
+            args = o.args(seed, base)
+            x = args.get(pname)
+            if not (isinstance(x, np.ndarray) and x.ndim >= 1 and x.dtype.kind in 'fiuc' and x.size <= 4096) or pname in o.writes or (o.name, pname) in NOT_ARRAY_LIKE:
+                return 'n/a'
+            args[pname] = x.tolist()
+            r = _result(o, _call(o, args), args)
+            if dig(r) != cold:
+                acc.violation(f'{key}:list-input:{pname}', case, f'{o.name} with {pname} given as a nested list of the same numbers differs from the ndarray call')
+            return
         if mode == 'default':
             # an optional argument given explicitly with its documented default (mc/api_defaults.json, taken from the signatures of
             # the pinned tree) is the call without it
@@ -438,6 +454,9 @@ def t_callhist(arg, acc):
     acc.cls('history:refills', nref)
     for i in range(len(o.bad)):
         chk_case(dict(case0, mode='refused', i=i), acc, seed)
+    for pname in sorted(o.base(seed)):
+        if chk_case(dict(case0, mode='listified', param=pname), acc, seed) != 'n/a':
+            acc.cls('history:list-inputs')
     for pname, val in sorted((api_defaults().get(name, {}).get('defaults') or {}).items()):
         if chk_case(dict(case0, mode='default', param=pname, value=val), acc, seed) != 'n/a':
             acc.cls('history:defaults')
@@ -448,6 +467,12 @@ def t_callhist(arg, acc):
 
 def tasks_for(pid, seed):
     return [('t_callhist', {'seed': seed, 'op': name}) for name, o in sorted(catalogue().items()) if pid in o.props]
+
+
+# parameters that are ndarrays in the catalogue but are not documented as array_like (or for which the pinned tree itself does
+# not accept a list): excluded from the list-input scenario
+NOT_ARRAY_LIKE = {('boundary_slice', 'x'), ('planck_exitance', 'wave'), ('planck_radiance', 'wave'), ('zernike-coords', 'rho'), ('zernike-coords', 'theta'),
+                  ('zernike_basis-coords', 'rho'), ('zernike_basis-coords', 'theta')}
 
 
 _DEF = None
